@@ -40,7 +40,7 @@ def plan(tier: str, seed: int) -> Dict[str, Any]:
     n = int(os.environ.get('VERIF_TASKS') or 0) or (260 if tier == 'quick' else 8000)
     tasks = [{'i': i, 'seed': derive(seed, PROPERTY, i), 'faults': 5 if tier == 'quick' else 8,
               'enumerate_truncations': tier == 'thorough' and i % 10 == 0} for i in range(n)]
-    return {'tasks': tasks, 'budget_s': 80 if tier == 'quick' else 1800, 'task_timeout': 240, 'selfcheck': 3}
+    return {'tasks': tasks, 'budget_s': 80 if tier == 'quick' else 1800, 'task_timeout': 240 if tier == 'quick' else 900, 'selfcheck': 3}
 
 
 def make_case(rng: Rng) -> Dict[str, Any]:
@@ -264,7 +264,12 @@ def run_task(task: Dict[str, Any]) -> Dict[str, Any]:
         small = [k for k, v in sorted(files_b.items()) if len(v) <= 400]
         if small:
             victim = rng.sub('enum').choice(small)
-            for off in range(len(files_b[victim]) + 1):
+            n = len(files_b[victim])
+            # every truncation offset of a small file (capped at 160 runs per task: longer files are covered in strides
+            # whose phase depends on the task, so that all offsets are reached across tasks)
+            stride = max(1, (n + 159) // 160)
+            phase = rng.sub('phase').below(stride)
+            for off in range(phase, n + 1, stride):
                 plans.append([{'kind': 'src.torn', 'victim': victim, 'offset': off}])
     return run_plans(case, plans)
 
